@@ -242,7 +242,11 @@ class Sim:
         if as_packet_ack:
             if not acks:
                 return
-            msg = Message("PacketAck", *[Block("Packets", ID=a) for a in acks], packet_id=pid, direction=self._dir(e))
+            # as_packet_ack == 2: an explicit PacketAck that also carries appended acks (first selected ack in the body, the rest
+            # appended) - the body must be rewritten even when only the appended acks keep the message alive
+            body, appended = (acks[:1], acks[1:]) if as_packet_ack == 2 else (acks, [])
+            msg = Message("PacketAck", *[Block("Packets", ID=a) for a in body], packet_id=pid, direction=self._dir(e),
+                          acks=tuple(appended), flags=(PacketFlags.ACK if appended else 0))
             reliable = False
         else:
             msg = Message("CompletePingCheck", Block("PingID", PingID=pid % 256), packet_id=pid, direction=self._dir(e),
@@ -367,6 +371,7 @@ EVENTS = [
     ("V", True, (0,), False, False), ("V", False, (), False, False), ("S", True, (0,), False, False), ("S", False, (0, 1), False, False),
     ("V", True, (0,), False, True), ("S", True, (0,), False, True), ("V", False, (0, 1, 2), True, False), ("S", False, (0, 1, 2), True, False),
     ("inject", "V", True), ("inject", "S", True), ("inject", "S", False), ("tick",),
+    ("V", False, (0, 1, 2), 2, False), ("S", False, (0, 1, 2), 2, False),
 ]
 
 
